@@ -4,6 +4,7 @@ import (
 	"fmt"
 	"math"
 	"sort"
+	"strconv"
 
 	at "github.com/DanielSvub/anytype"
 	"pgregory.net/rapid"
@@ -31,7 +32,7 @@ func GenC17(t *rapid.T) *C17Case {
 	c := &C17Case{Twice: drawBool(t, "twice"), Route: drawInt(t, 0, numListRoutes-1, "route")}
 	if drawBool(t, "seq") {
 		for i, n := 0, drawInt(t, 1, 5, "nops"); i < n; i++ {
-			c.Ops = append(c.Ops, []string{"sort", "reverse"}[drawInt(t, 0, 1, "op")])
+			c.Ops = append(c.Ops, []string{"sort", "reverse", "sort", "reverse", "replace", "add", "insert", "delete", "settf"}[drawIdx(t, 9, "op")])
 		}
 	}
 	shape := drawInt(t, 0, 3, "shape") // 0 random, 1 sorted, 2 reverse sorted, 3 duplicate-heavy
@@ -219,6 +220,9 @@ func CheckC17(c *C17Case, st *Stats) error {
 		// further Sort / Reverse calls against a model
 		model := append([]V{}, again.L...)
 		for oi, op := range c.Ops {
+			if len(model) <= 1 && (op == "delete" || op == "sort") {
+				continue // Sort is only specified on non-empty lists; never delete the last element
+			}
 			switch op {
 			case "sort":
 				l.Sort()
@@ -235,6 +239,41 @@ func CheckC17(c *C17Case, st *Stats) error {
 				l.Reverse()
 				for i, j := 0, len(model)-1; i < j; i, j = i+1, j-1 {
 					model[i], model[j] = model[j], model[i]
+				}
+			case "replace", "add", "insert", "delete", "settf":
+				// a mutation with a value of the list's own kind, derived deterministically from the step
+				if len(model) == 0 {
+					continue
+				}
+				idx := (oi*5 + 1) % len(model)
+				src := model[(oi*7+2)%len(model)]
+				var nv V
+				switch src.K {
+				case KString:
+					nv = VStr(src.S + "~")
+				case KInt:
+					nv = V{K: KInt, I: -src.I/2 + int64(oi)}
+				default:
+					nv = VFloat(-src.Float()/2 + float64(oi) + 0.5)
+				}
+				switch op {
+				case "replace":
+					l.Replace(idx, Build(nv))
+					model[idx] = nv
+				case "settf":
+					l.SetTF("#"+strconv.Itoa(idx), Build(nv))
+					model[idx] = nv
+				case "add":
+					l.Add(Build(nv))
+					model = append(model, nv)
+				case "insert":
+					l.Insert(idx, Build(nv))
+					model = append(model, V{})
+					copy(model[idx+1:], model[idx:])
+					model[idx] = nv
+				case "delete":
+					l.Delete(idx)
+					model = append(model[:idx:idx], model[idx+1:]...)
 				}
 			default:
 				continue
